@@ -24,22 +24,45 @@ theorem cons_range {N : Nat} {s : List Int} (hs : s.length = N) {x : Var → Rat
   have := hcons _ hmem
   simpa [assign] using this
 
-theorem dispatch_matrix_quso (L : Obj) (hk : L.kind = .qusom) (N : Nat) (model : Poly) (rev : List Var)
-    (h : dispatchQuso L = .ok (N, model, rev)) :
-    model = L.terms ∧ rev = List.range N ∧ (N = 0 → L.vars = []) := by
-  unfold dispatchQuso at h
+theorem dispatchQuso_not_pusom (L : Obj) (h : ¬ L.kind = .pusom) : dispatchQuso L = dispatchQusoCore L := by
+  unfold dispatchQuso; rw [if_neg h]
+
+/-- the Matrix branch of the dispatch of `anneal_quso` -/
+theorem dispatchCore_matrix (M : Obj) (hk : M.kind = .qusom) (N : Nat) (model : Poly) (rev : List Var)
+    (h : dispatchQusoCore M = .ok (N, model, rev)) :
+    model = M.terms ∧ rev = List.range N ∧ N = M.maxIndex.elim 0 (· + 1) := by
+  unfold dispatchQusoCore at h
   rw [if_pos hk] at h
-  cases hm : L.maxIndex with
+  cases hm : M.maxIndex with
   | none =>
     simp only [hm, bind, Except.bind, pure, Except.pure] at h
     injection h with h; injection h with h1 h2; injection h2 with h2 h3
     subst h1; subst h2; subst h3
-    exact ⟨rfl, rfl, fun _ => (maxIndex_none_iff L).mp hm⟩
+    exact ⟨rfl, rfl, rfl⟩
   | some m =>
     simp only [hm, bind, Except.bind, pure, Except.pure] at h
     injection h with h; injection h with h1 h2; injection h2 with h2 h3
     subst h1; subst h2; subst h3
-    exact ⟨rfl, rfl, fun h0 => by omega⟩
+    exact ⟨rfl, rfl, rfl⟩
+
+theorem dispatch_matrix_quso (L : Obj) (hk : L.kind = .qusom) (N : Nat) (model : Poly) (rev : List Var)
+    (h : dispatchQuso L = .ok (N, model, rev)) :
+    model = L.terms ∧ rev = List.range N ∧ (N = 0 → L.vars = []) := by
+  rw [dispatchQuso_not_pusom L (by rw [hk]; decide)] at h
+  obtain ⟨h1, h2, h3⟩ := dispatchCore_matrix L hk N model rev h
+  refine ⟨h1, h2, fun h0 => ?_⟩
+  cases hm : L.maxIndex with
+  | none => exact (maxIndex_none_iff L).mp hm
+  | some m => rw [hm] at h3; simp at h3; omega
+
+/-- `anneal_quso` on a `PUSOMatrix`: the dispatch is that of `QUSOMatrix(L)` -/
+theorem dispatch_pusom_quso (L : Obj) (hk : L.kind = .pusom) (N : Nat) (model : Poly) (rev : List Var)
+    (h : dispatchQuso L = .ok (N, model, rev)) :
+    ∃ M, Obj.build .qusom L.terms = .ok M ∧ dispatchQusoCore M = .ok (N, model, rev) := by
+  unfold dispatchQuso at h
+  rw [if_pos hk] at h
+  simp only [bind_ok_iff] at h
+  exact h
 
 theorem dispatch_matrix_puso (H : Obj) (hk : H.kind = .qusom ∨ H.kind = .pusom) (N : Nat) (model : Poly)
     (rev : List Var) (h : dispatchPuso H = .ok (N, model, rev)) :
@@ -273,5 +296,82 @@ theorem build_fold : ∀ (ops : Poly) (o0 o : Obj), ObjInv o0 →
 /-- `cls()` followed by any sequence of `self[k] += v` satisfies the bookkeeping invariant -/
 theorem build_inv (κ : Kind) (ops : Poly) (o : Obj) (h : Obj.build κ ops = .ok o) : ObjInv o ∧ o.kind = κ :=
   build_fold ops _ o (objInv_empty κ) h
+
+/-! ## inputs that `anneal_quso` / `anneal_puso` rebuild first (`QUSOMatrix(L)`, `QUSO(L)`, `PUSO(H)`) -/
+
+theorem build_fold_terms : ∀ (ops : Poly) (o0 o : Obj), ObjInv o0 →
+    ops.foldlM (fun (o : Obj) (kv : Key × Rat) => o.iadd kv.1 kv.2) o0 = .ok o →
+    iaddD (squash o0.kind) o0.terms ops = .ok o.terms
+  | [], o0, o, _, h => by
+    simp only [List.foldlM_nil, pure, Except.pure] at h
+    injection h with h; subst h; rfl
+  | (k, v) :: ops, o0, o, hI, h => by
+    simp only [List.foldlM_cons, bind_ok_iff] at h
+    obtain ⟨o1, hs, h⟩ := h
+    obtain ⟨i1, k1, a1⟩ := iadd_inv hI hs
+    have := build_fold_terms ops o1 o i1 h
+    rw [k1] at this
+    simp only [iaddD, bind_ok_iff]
+    exact ⟨o1.terms, a1, this⟩
+
+/-- `cls(d)` has the value of `d` at every spin assignment (spin kinds) -/
+theorem build_eval_spin (κ : Kind) (hκ : κ.isSpin = true) (ops : Poly) (o : Obj) (h : Obj.build κ ops = .ok o)
+    (x : Var → Rat) (hx : IsSpin x) : eval x o.terms = eval x ops := by
+  have := build_fold_terms ops _ o (objInv_empty κ) h
+  exact eval_construct (sqOK_spin hκ hx) this
+
+theorem prep_congr {ρ α : Type} (d : Obj → Except Err (Nat × Poly × List Var)) (L M : Obj) (P : Params ρ α)
+    (h : d L = d M) : prep d L P = prep d M P := by
+  unfold prep; rw [h]
+
+/-- for every kind other than `QUSOMatrix` / `QUSO`, `anneal_quso` works on a rebuilt object:
+`QUSOMatrix(L)` for a `PUSOMatrix`, `QUSO(L)` otherwise (dict, `PUSO`, `PCSO`, …) -/
+theorem annealQuso_rebuilt {ρ α : Type} [Add α] [Mul α] [OfInt α] (cfg : Cfg ρ α) (L : Obj) (P : Params ρ α)
+    (hk : L.kind ≠ .qusom ∧ L.kind ≠ .quso) (N : Nat) (model : Poly) (rev : List Var)
+    (hd : dispatchQuso L = .ok (N, model, rev)) :
+    ∃ M, Obj.build (if L.kind = .pusom then .qusom else .quso) L.terms = .ok M ∧
+      Anneal.annealQuso cfg L P = Anneal.annealQuso cfg M P := by
+  by_cases hp : L.kind = .pusom
+  · obtain ⟨M, hb, hc⟩ := dispatch_pusom_quso L hp N model rev hd
+    refine ⟨M, by rw [if_pos hp]; exact hb, ?_⟩
+    have hM : M.kind = .qusom := (build_inv .qusom L.terms M hb).2
+    have e : dispatchQuso L = dispatchQuso M := by
+      rw [hd, dispatchQuso_not_pusom M (by rw [hM]; decide), hc]
+    unfold Anneal.annealQuso
+    rw [prep_congr dispatchQuso L M P e]
+  · rw [dispatchQuso_not_pusom L hp] at hd
+    have hd0 := hd
+    unfold dispatchQusoCore at hd
+    rw [if_neg hk.1, if_neg hk.2] at hd
+    simp only [bind_ok_iff] at hd
+    obtain ⟨M, hb, _⟩ := hd
+    refine ⟨M, by rw [if_neg hp]; exact hb, ?_⟩
+    have hM : M.kind = .quso := (build_inv .quso L.terms M hb).2
+    have e : dispatchQuso L = dispatchQuso M := by
+      rw [dispatchQuso_not_pusom L hp, dispatchQuso_not_pusom M (by rw [hM]; decide)]
+      unfold dispatchQusoCore
+      rw [if_neg hk.1, if_neg hk.2, hb, if_neg (by rw [hM]; decide), if_pos hM]
+      rfl
+    unfold Anneal.annealQuso
+    rw [prep_congr dispatchQuso L M P e]
+
+/-- `anneal_puso` on anything but the five spin types works on `PUSO(H)` -/
+theorem annealPuso_rebuilt {ρ α : Type} [Add α] [Mul α] [OfInt α] (cfg : Cfg ρ α) (H : Obj) (P : Params ρ α)
+    (hk : ¬ (H.kind = .qusom ∨ H.kind = .pusom) ∧ ¬ (H.kind = .quso ∨ H.kind = .puso ∨ H.kind = .pcso))
+    (N : Nat) (model : Poly) (rev : List Var) (hd : dispatchPuso H = .ok (N, model, rev)) :
+    ∃ M, Obj.build .puso H.terms = .ok M ∧ Anneal.annealPuso cfg H P = Anneal.annealPuso cfg M P := by
+  have hd0 := hd
+  unfold dispatchPuso at hd
+  rw [if_neg hk.1, if_neg hk.2] at hd
+  simp only [bind_ok_iff] at hd
+  obtain ⟨M, hb, _⟩ := hd
+  refine ⟨M, hb, ?_⟩
+  have hM : M.kind = .puso := (build_inv .puso H.terms M hb).2
+  have e : dispatchPuso H = dispatchPuso M := by
+    unfold dispatchPuso
+    rw [if_neg hk.1, if_neg hk.2, hb, if_neg (by rw [hM]; decide), if_pos (Or.inr (Or.inl hM))]
+    rfl
+  unfold Anneal.annealPuso
+  rw [prep_congr dispatchPuso H M P e]
 
 end Qv.Anneal
